@@ -837,7 +837,6 @@ class Trial:
                     drift_sig = True
                     continue
             self.report_state(m, attr, p, "changed", float(d.max()))
-        arrs_s, scal1 = None, None
         _, scal1 = snapshot(self.shape)
         for k, v in scal0.items():
             w = scal1.get(k)
